@@ -191,6 +191,11 @@ UNITS = [LinkedRowLocality(), Totals(), IndividualSample({"C03"}), MeanEstimator
 # C19 on IndividualGibbsSampler._update_std, entry by entry): borrowed, verified in C19's context
 from contracts import c19 as _c19
 UNITS += [foreign(u_, "c19") for u_ in _c19._update_std_units() if "IndividualGibbsSampler" in u_.target]
+# "the number of parallel workers does not change any result": everything random about an individual's optimisation (its starting
+# point) is drawn in the sequential preparation loop of the main process, on that individual's own clone, before the parallel
+# section (contract of C13 on that loop, verified in C13's context)
+from contracts import c13 as _c13
+UNITS += [foreign(_c13.ScipyPerIndividualClones(), "c13")]
 CALLEES = [ShuffledIndices()]
 engine_setup = T.engine_setup
 ASSUMPTIONS = [
